@@ -149,7 +149,7 @@ def lin(sup, node, op, _depth=0, log=None):
                 if log is not None:
                     log.extend((a, sub) for a in r.terms if a[0] == "len")
                 return r
-        if (fn_of(t) or {}).get("name") in ("saturating_sub", "checked_sub", "wrapping_sub") and len(t["args"]) == 2 and d.startswith("core::num::"):
+        if (fn_of(t) or {}).get("name") in ("saturating_sub", "checked_sub") and len(t["args"]) == 2 and d.startswith("core::num::"):
             # (as a symbolic difference: where the subtraction saturates or fails, the caller has a test for it)
             a = lin(sup, sub, t["args"][0], _depth + 1, log)
             b = lin(sup, sub, t["args"][1], _depth + 1, log)
